@@ -99,7 +99,9 @@ def html_obs(p):
         ch = p.stack[-1]["children"]
         inv = inv and bool(ch) and ch[-1] is p.last_closed
     d, t = skip_obs(p)
-    return (conv(p.get_tree()), tuple(n["tag"] for n in reversed(p.stack)), p.last_closed is not None, d, t), inv
+    from sharepoint2text.parsing.extractors.html_extractor import _HtmlTextExtractor
+    flat = _HtmlTextExtractor(p.get_tree())._get_node_text(p.get_tree())
+    return (conv(p.get_tree()), tuple(n["tag"] for n in reversed(p.stack)), p.last_closed is not None, d, t, flat), inv
 
 
 def node_coq(n):
@@ -109,8 +111,9 @@ def node_coq(n):
 
 
 def html_obs_coq(o):
-    tree, stk, haslc, d, t = o
-    return f"({node_coq(tree)}, {coq_list([coq_str(x) for x in stk])}, {coq_bool(haslc)}, {d}%nat, {coq_opt(t, coq_str)})"
+    tree, stk, haslc, d, t, flat = o
+    return (f"({node_coq(tree)}, {coq_list([coq_str(x) for x in stk])}, {coq_bool(haslc)}, {d}%nat, {coq_opt(t, coq_str)}, "
+            f"{coq_str(flat)})")
 
 
 def epub_obs(p):
@@ -139,6 +142,26 @@ def closes(r, inner):
                 return False
             k -= 1
     return k == 0
+
+
+def spec_visible_text(evs):
+    """Python twin of Model.visible_text with the STANDARD tables (property statement's removable
+    elements, HTML void elements): the Data outside removed elements, concatenated."""
+    depth, tag, out = 0, None, []
+    for e in evs:
+        k = e[0]
+        g = e[1].lower() if k in ("S", "E") else None
+        if k == "S":
+            if depth > 0:
+                depth += (g == tag)
+            elif g in STATEMENT_REMOVED and g not in STD_VOID:
+                depth, tag = 1, g
+        elif k == "E":
+            if depth > 0:
+                depth -= (g == tag)
+        elif k == "D" and depth == 0:
+            out.append(e[1])
+    return "".join(out)
 
 
 DATA = ["x", " y ", "a\nb", "\u00a0z", "T\u2003w", ""]
@@ -189,7 +212,7 @@ def event_correspondence(ctx, H, E):
     html_lists = list(exhaustive(html_tags6, L))
     epub_lists = (list(exhaustive(epub_tags6, 3)) if L == 3 else
                   list(exhaustive(epub_tags8, 3)) + [l for l in exhaustive(epub_tags6, 4) if len(l) == 4])
-    for _ in range(ctx.n(600, 8000)):
+    for _ in range(ctx.n(600, 5000)):
         html_lists.append(random_events(rng, html_more, rng.randint(4, 24)))
         epub_lists.append(random_events(rng, epub_more, rng.randint(4, 24)))
 
@@ -204,6 +227,9 @@ def event_correspondence(ctx, H, E):
             continue
         if not inv:
             bad_inv.append(evs)
+        if o[5] != spec_visible_text(evs):
+            ctx.finding("html:tree-text", f"html: text of the built tree {o[5]!r} is not the visible Data {spec_visible_text(evs)!r} "
+                        f"for events {evs!r}", {"machine": "html", "events": evs, "tree_text": o[5], "expected": spec_visible_text(evs)})
         cases.append(f"({evs_coq(evs)}, {html_obs_coq(o)})")
         ctx.case(("html-ev", evs), any(e[0] == "S" and e[1].lower() in H.REMOVE_TAGS for e in evs), kind=f"html-events:{min(len(evs), 5)}{'+' if len(evs) >= 5 else ''}")
     ok, failing, log = coq_eval_shards(ctx, "html", pre, "(html_case html_remove html_void)", cases, shard=500,
@@ -533,6 +559,28 @@ def epub_bytes(chapter_xhtml):
     return bio.getvalue()
 
 
+class _StubMsOx:
+    """Stands in for the third-party msg_parser.MsOxMessage (an oracle): delivers the given text as
+    the message body so that the repository's own MSG body handling runs on it."""
+    message_id = "<1@verif>"
+    sent_date = "Mon, 01 Jan 2024 10:00:00 +0000"
+    sender = "A <a@example.org>"
+    to = "b@example.org"
+    cc = None
+    bcc = None
+    reply_to = None
+    subject = "s"
+
+    def __init__(self, f):
+        self.body = f.read().decode("utf-8")
+
+
+def msg_body_plain(M, body):
+    from unittest import mock
+    with mock.patch.object(M, "MsOxMessage", _StubMsOx), mock.patch.object(M, "_extract_msg_attachments", lambda b: []):
+        return list(M.read_msg_format_mail(io.BytesIO(body.encode("utf-8"))))[0].body_plain
+
+
 def run_paths(html_bare, html_full, H, E, mods):
     """Run one generated body through every HTML-family path; returns {path: (text, extra, tables|None)}."""
     out = {}
@@ -548,6 +596,8 @@ def run_paths(html_bare, html_full, H, E, mods):
     for cte in ("quoted-printable", "base64", "8bit"):
         out[f"read_mhtml:{cte}"] = html_result(list(mods["mhtml"].read_mhtml(io.BytesIO(mhtml_bytes(html_full, cte))))[0])
     out["msg:_html_to_text"] = (mods["msg"]._html_to_text(html_full), [], None)
+    out["read_msg:body(bare)"] = (msg_body_plain(mods["msg"], html_bare), [], None)
+    out["read_msg:body(full)"] = (msg_body_plain(mods["msg"], html_full), [], None)
     xhtml = '<?xml version="1.0" encoding="utf-8"?>\n' + html_full.replace("<html ", '<html xmlns="http://www.w3.org/1999/xhtml" ')
     res = list(E.read_epub(io.BytesIO(epub_bytes(xhtml))))[0]
     ch = res.chapters[0] if res.chapters else None
@@ -609,6 +659,19 @@ def text_level(ctx, H, E):
         fam = "epub" if path.startswith("read_epub") else "html"
         ctx.finding(f"{fam}:comment-visible", f"{path}: {why} for {body!r}", {"path": path, "html_body": body, "why": why,
                                                                               "visible": d.visible, "hidden": d.hidden})
+    # HTML mail bodies that are fragments whose tags all carry attributes must still be treated as HTML
+    for body in ('<div class="a"><style type="text/css">p {color: hid1z}</style><p class="x">vis1z</p></div>',
+                 '<table border="0"><tr valign="top"><td width="1">vis1z<script type="text/javascript">var hid1z;</script></td></tr></table>',
+                 '<span style="x">vis1z</span><br clear="all"><noscript class="n"><img src=x alt="hid1z"></noscript>'):
+        ctx.case(("msg-fragment", body), True, kind="text-probe")
+        try:
+            got = msg_body_plain(mods["msg"], body)
+        except Exception as ex:  # noqa
+            got = "hid:" + repr(ex)
+        if "hid1z" in got or "vis1z" not in got:
+            fails["read_msg:fragment"] = fails.get("read_msg:fragment", 0) + 1
+            ctx.finding("msg:html-fragment-undetected", f"read_msg body_plain keeps removed markup for the HTML body {body!r}: {got[:120]!r}",
+                        {"path": "read_msg:body", "html_body": body, "body_plain": got})
     # head-level script/style
     d = Doc(rng)
     d.visible, d.hidden = ["vis1z"], ["hid1z", "hid2z"]
@@ -616,7 +679,7 @@ def text_level(ctx, H, E):
         ctx.finding("html:head-removable", f"{path}: {why} for script/style in <head>", {"path": path, "why": why})
 
     # generated documents ------------------------------------------------------------------------
-    ndocs = ctx.n(1500, 15000)
+    ndocs = ctx.n(1500, 8000)
     for i in range(ndocs):
         d = Doc(rng)
         body = d.body(rng.randint(1, 5))
@@ -675,7 +738,7 @@ def feed_correspondence(ctx, H, E):
             '<!DOCTYPE html><?pi x?><p>a &amp; b &#65; <![CDATA[c]]> <!-- d --></p><title>t</title>',
             '<table><tr><td>a<noscript></td>x</noscript></td><th>b</th></tr></table><p>c</p>',
             '<P CLASS=x Class=y hidden>a</P><NoScript>h</NOSCRIPT>b<object><param name=a>h</object>c']
-    for _ in range(ctx.n(120, 1000)):
+    for _ in range(ctx.n(120, 600)):
         d = Doc(rng)
         body = d.body(rng.randint(1, 4))
         docs.append(body if rng.random() < 0.5 else wrap_full(body))
@@ -717,6 +780,12 @@ def replay(ctx, rp):
         ctx.case(("replay", a), True, kind="replay")
         if obs(drive(cls, a)) != obs(drive(cls, b)):
             ctx.finding(key, rp.get("what", "state differs"), {"machine": rp.get("machine"), "events": a, "without": b})
+    elif "body_plain" in rp:
+        M = importlib.import_module("sharepoint2text.parsing.extractors.mail.msg_email_extractor")
+        got = msg_body_plain(M, rp["html_body"])
+        ctx.case(("replay", rp["html_body"]), True, kind="replay")
+        if "hid1z" in got or "vis1z" not in got:
+            ctx.finding(key, rp.get("what", "read_msg keeps removed markup"), {"path": "read_msg:body", "html_body": rp["html_body"], "body_plain": got})
     elif "html_body" in rp:
         mods = {"mhtml": importlib.import_module("sharepoint2text.parsing.extractors.mhtml_extractor"),
                 "msg": importlib.import_module("sharepoint2text.parsing.extractors.mail.msg_email_extractor")}
@@ -776,6 +845,7 @@ def run(ctx):
 
     ctx.prove("C17/Props.v", ["C17/Proofs.vo"], expected=[
         "C17_html_noninterference", "C17_html_outputs_equal", "C17_html_void_removable", "C17_html_comment_inert",
+        "C17_html_text_preserved", "C17_html_all_text_without_removable",
         "C17_epub_noninterference", "C17_epub_outputs_equal", "C17_epub_void_removable", "C17_epub_comment_inert"])
     ctx.prove("C17/Inst.v", ["Gen/C17Tables.vo", "C17/Corr.vo", "C17/Proofs.vo"], expected=[
         "C17_html_tables_wf", "C17_epub_tables_wf", "C17_statement_tags_removed",
